@@ -84,6 +84,16 @@ Theorem C03_abs_after_load : forall L cap own ownd buf w,
   end.
 Proof. exact load_h_refines. Qed.
 Print Assumptions C03_abs_after_load.
+(* ... and under ANY allocator, for any input shorter than SIZE_MAX: if cbor_load returns an item, its
+   abstraction is the tree the pure load returns (and every traversal budget that covers the cells
+   allocated after the root reads it) *)
+Theorem C03_abs_after_load_any : forall L cap own ownd refuse buf w a c p r w',
+  SIZE_MAX <= cap -> bytes_ok buf -> len buf < SIZE_MAX -> HCont_proofs.wf w -> Inv own ownd [] w ->
+  load_h refuse L buf w = Ret (Some a, c, p, r) w' ->
+  exists t, load L cap buf = LOk t r /\ c = ENone /\ p = 0 /\
+    forall fuel, (N.to_nat (next w' - a) <= fuel)%nat -> exists w'', abs fuel a w' = Ret t w''.
+Proof. exact load_h_ok_abs_any. Qed.
+Print Assumptions C03_abs_after_load_any.
 
 Example C03_example_api : forall s' w',
   step HRef_proofs.never 8 (fst exAbs_sw) exAbs_op (snd exAbs_sw) = Ret (s', OutBool true) w' ->
